@@ -3,7 +3,7 @@ C07 - cross-checking flags exactly the left-right inconsistent pixels, nothing e
 
 Enumerated on the real `validation.AbstractValidation(**cfg).disparity_checking(left, right)`:
   * level 0 (all pixels valid, threshold 1.0, interval [-2, 2], offset 0): EVERY pair of 1-row left/right disparity
-    rows of width 1 and 2 as single-row maps, and of width 3 (thorough: also width 4) stacked as the rows of one map
+    rows of width 1 and 2 as single-row maps, and of width 3 (thorough: also width 4, 7 symbols) stacked as the rows of one map
     (cross-checking is per-row independent in the statement; the reference computes the whole stacked expectation,
     so any cross-row interference is a mismatch);
   * level 1 / 2: the same product at width 3 with one / two departures from level 0 among: one left validity pixel
@@ -37,9 +37,10 @@ RULE = (
     "outside/border)"
 )
 ASSUMPTIONS = [
-    "disparity alphabet {-2,-1,0,1,2,-0.5,0.5,NaN} (quick, widths 1-3; thorough width 4), plus {1.5,-9999} "
-    "(thorough, widths 1-3); level 1 in quick and level 2 in thorough use the sub-alphabets {-1,0,1,0.5,NaN} / "
-    "{-2,-1,0,1,0.5,NaN}",
+    "disparity alphabet {-2,-1,0,1,2,-0.5,0.5,NaN} (quick, width 3; plus 1.5 at widths 1-2), plus {1.5,-9999} "
+    "(thorough, widths 1-3); "
+    "thorough width 4 over {-2,-1,0,1,-0.5,0.5,NaN}; level 1 in quick and level 2 in thorough use the sub-alphabets "
+    "{-1,0,1,0.5,NaN} / {-2,-1,0,1,0.5,NaN}",
     "round() of an exact .5 is open in the statement: half-even, half-away and half-up are accepted, but ONE mode "
     "(one for the correspondent, one for the mismatch search) must explain the whole map - q = p + round(dL(p)) "
     "does not depend on the column",
@@ -54,6 +55,8 @@ NAN = float("nan")
 ALPHA = {
     "q8": [-2.0, -1.0, 0.0, 1.0, 2.0, -0.5, 0.5, NAN],
     "t10": [-2.0, -1.0, 0.0, 1.0, 2.0, -0.5, 0.5, NAN, 1.5, -9999.0],
+    "q9": [-2.0, -1.0, 0.0, 1.0, 2.0, -0.5, 0.5, NAN, 1.5],
+    "q7": [-2.0, -1.0, 0.0, 1.0, -0.5, 0.5, NAN],
     "s5": [-1.0, 0.0, 1.0, 0.5, NAN],
     "s6": [-2.0, -1.0, 0.0, 1.0, 0.5, NAN],
 }
@@ -108,20 +111,21 @@ def stack_cases(alpha, w, cfg, seed):
 def spaces(tier, seed):
     a0 = "q8" if tier == "quick" else "t10"
     base = {"thr": 1.0, "interval": [-2, 2], "off": 0, "conf": 0}
+    a_single = "q9" if tier == "quick" else "t10"
     singles = [
-        {"kind": "single", "alpha": a0, "w": w, "i": i, "rot": seed % len(RIGHT_FLAGS), **base}
+        {"kind": "single", "alpha": a_single, "w": w, "i": i, "rot": seed % len(RIGHT_FLAGS), **base}
         for w in (1, 2)
-        for i in range(len(ALPHA[a0]) ** w)
+        for i in range(len(ALPHA[a_single]) ** w)
     ]
     sp = [
-        {"name": f"level 0: all row pairs of width 1-2 over {a0} as single-row maps", "level": 0, "cases": singles,
-         "chunk": 2},
+        {"name": f"level 0: all row pairs of width 1-2 over {a_single} as single-row maps", "level": 0,
+         "cases": singles, "chunk": 2},
         {"name": f"level 0: all row pairs of width 3 over {a0}, stacked", "level": 0,
          "cases": stack_cases(a0, 3, dict(base, fl=[0, 0, 0]), seed)},
     ]
     if tier == "thorough":
-        sp.append({"name": "level 0: all row pairs of width 4 over q8, stacked", "level": 0,
-                   "cases": stack_cases("q8", 4, dict(base, fl=[0, 0, 0, 0]), seed), "chunk": 1})
+        sp.append({"name": "level 0: all row pairs of width 4 over q7, stacked", "level": 0,
+                   "cases": stack_cases("q7", 4, dict(base, fl=[0, 0, 0, 0]), seed), "chunk": 1})
     a1 = "s5" if tier == "quick" else "q8"
     lvl1 = itertools.chain.from_iterable(stack_cases(a1, 3, config_of([d]), seed) for d in departures())
     sp.append({"name": f"level 1: one departure (validity pixel | threshold | interval | offset | bands), width 3 "
@@ -216,7 +220,8 @@ def judge(obs_flags, obs_conf, dl, dr, fl, thr, dmin, dmax, off, site="disparity
             # dL, the correspondent is outside the image: "unflagged" needs a correspondent inside
             key = f"C07/flag/{SITE}/correspondent outside the right image left unflagged"
             clause = "outside-correspondent"
-        elif _is_half(d) and _sum_rounding_explains(o, obs_conf[r, p], f0, p, d, dr64[r], thr, m["mismatch"][r, p], n):
+        elif _is_half(d) and _sum_rounding_explains(o, obs_conf[r, p], f0, p, d, dr64[r], thr, n, dmin,
+                                                    dmax):
             key = f"C07/correspondent/{SITE}/half-integer dL: p+dL(p) rounded as a sum (depends on column parity)"
             clause = "correspondent"
         elif not okf[r, p]:
@@ -229,9 +234,14 @@ def judge(obs_flags, obs_conf, dl, dr, fl, thr, dmin, dmax, off, site="disparity
     return list(viol.values()), m, nbad
 
 
-def _sum_rounding_explains(o, oconf, f0, p, d, dr_row, thr, mismatch, n):
+def _sum_rounding_explains(o, oconf, f0, p, d, dr_row, thr, n, dmin, dmax):
     """diagnostic only (classification of an already established violation): does q' = rint(p + dL(p)) explain it?"""
     q = int(np.rint(p + d))
+    kinds = set()  # occlusion / mismatch decisions under the accepted roundings of the mismatch search
+    for ms in X.MODES:
+        mism = any(0 <= p + k < n and np.isfinite(dr_row[p + k]) and X.round_scalar(float(dr_row[p + k]), ms) == -k
+                   for k in range(int(dmin), int(dmax) + 1))
+        kinds.add(f0 + (X.MIS if mism else X.OCC))
     if 0 <= q < n:
         r = dr_row[q]
         s = abs(d + r) if np.isfinite(r) else np.inf
@@ -239,8 +249,8 @@ def _sum_rounding_explains(o, oconf, f0, p, d, dr_row, thr, mismatch, n):
             return False
         if s <= thr:
             return o == f0
-        return o == f0 + (X.MIS if mismatch else X.OCC)
-    return o in (f0, f0 + X.OCC, f0 + (X.MIS if mismatch else X.OCC))
+        return o in kinds
+    return o in kinds or o in (f0, f0 + X.OCC)
 
 
 def _pinning_row(obs_flags, obs_conf, dl, dr, fl, thr, dmin, dmax, off, mq, ms, combos):
@@ -266,7 +276,7 @@ def _pinning_row(obs_flags, obs_conf, dl, dr, fl, thr, dmin, dmax, off, mq, ms, 
             f"-> flags={obs_flags[r].tolist()} conf={obs_conf[r].tolist()}")
 
 
-def _whole_map_clauses(res, fl, conf_bands, site, viol):
+def _whole_map_clauses(res, conf_bands, site, viol):
     """clauses that do not depend on the rounding mode"""
     def bad(clause, what, detail):
         viol.append({"clause": clause, "key": f"C07/{clause}/{site}/{what}", "detail": detail})
@@ -304,10 +314,8 @@ def _sigs(cfgkey, m):
     codes = m["cls"].astype(np.int64)
     w = codes.shape[1]
     weights = 7 ** np.arange(w)
-    vals = np.unique(codes @ weights)
     nontrivial_rows = ((codes >= 2) & (codes <= 5)).any(axis=1)
     ntvals = np.unique((codes @ weights)[nontrivial_rows])
-    del vals
     sigs = []
     for v in ntvals:
         s = ""
@@ -335,7 +343,7 @@ def _run_map(case, dl, dr, fl, fr):
         viol.append({"clause": "totality", "key": f"C07/totality/disparity_checking/{type(res['error']).__name__}",
                      "detail": f"disparity_checking raised {res['error']!r} on dL={np.asarray(dl)[:3].tolist()}..."})
         return viol, None
-    conf = _whole_map_clauses(res, fl, case["conf"], "disparity_checking", viol)
+    conf = _whole_map_clauses(res, case["conf"], "disparity_checking", viol)
     if conf is None:
         return viol, None
     v, m, _ = judge(res["out"]["validity_mask"].data, conf, dl, dr, fl, float(thr_val), case["interval"][0],
@@ -366,7 +374,7 @@ def run_case(case):
                 s, t = _sigs("single|" + _cfgkey(dict(case, fl=None)), m)
                 sigs.update(s)
                 trivial += t
-                _cross_check_models(dl, dr, fl, case, m)
+                _cross_check_models(dl, dr, fl, case)
         return {"n": n, "sigs": sorted(sigs), "viol": list(viol.values()), "trivial": trivial}
     k = np.arange(n)
     li = (case["i"] + case["stride"] * k) % n
@@ -378,12 +386,12 @@ def run_case(case):
     if m is None:
         return {"n": n, "sigs": [], "viol": v}
     if case["i"] % 16 == 0:
-        _cross_check_models(dl[:: max(1, n // 64)], dr[:: max(1, n // 64)], fl[:: max(1, n // 64)], case, None)
+        _cross_check_models(dl[:: max(1, n // 64)], dr[:: max(1, n // 64)], fl[:: max(1, n // 64)], case)
     sigs, trivial = _sigs(_cfgkey(case), m)
     return {"n": n, "sigs": sigs, "viol": v, "trivial": trivial}
 
 
-def _cross_check_models(dl, dr, fl, case, m):
+def _cross_check_models(dl, dr, fl, case):
     """the vectorised model must agree with the plain-loop transcription (harness self-check, not a verdict)"""
     thr = 1.0 if case["thr"] == "default" else float(case["thr"])
     for mq, ms in (("even", "even"), ("away", "up"), ("up", "away")):
@@ -395,7 +403,6 @@ def _cross_check_models(dl, dr, fl, case, m):
             for p, cv in enumerate(c):
                 if (cv is not None) != bool(mm["conf_asserted"][r, p]) or (cv is not None and cv != mm["conf"][r, p]):
                     raise AssertionError(f"reference models disagree on confidence: {dl[r]} {dr[r]} {mq} {ms}")
-    del m
 
 
 # ----------------------------------------------------------------------------------------------
@@ -436,10 +443,9 @@ def run_machine(case):
         v, m, _ = judge(out["validity_mask"].data, conf, dl, dr, fl, float(case["thr"]), dmin, dmax, off, site)
         for x in v:
             viol.setdefault(x["key"], x)
-        s, t = _sigs(f"machine|{side}|t{case['thr']}|o{off}", m)
+        s, _ = _sigs(f"machine|{side}|t{case['thr']}|o{off}", m)
         sigs.update(s)
         trivial += 0 if s else 1
-        del t
     return {"n": 2, "sigs": sorted(sigs), "viol": list(viol.values()), "trivial": trivial}
 
 
